@@ -61,3 +61,45 @@ package ast
 //@   prop C02 C04 C06
 //@   ensures [fun] result == SymStr(iface(this))
 //@   assigns nothing
+//@
+//@ # ---- C14: a lexical production defined twice is refused ----
+//@ spec lexId(p ast.LexProduction) string = ite(typeis(p, *ast.LexTokDef), as(p, *ast.LexTokDef).id, ite(typeis(p, *ast.LexRegDef), as(p, *ast.LexRegDef).id, as(p, *ast.LexIgnoredTokDef).id))
+//@ spec isLexProd(p ast.LexProduction) bool = (typeis(p, *ast.LexTokDef) && as(p, *ast.LexTokDef) != nil) || (typeis(p, *ast.LexRegDef) && as(p, *ast.LexRegDef) != nil) || (typeis(p, *ast.LexIgnoredTokDef) && as(p, *ast.LexIgnoredTokDef) != nil)
+//@ func (*LexTokDef).Id
+//@   prop C14
+//@   requires [this] this != nil
+//@   ensures [fun] result == lexId(iface(this))
+//@   assigns nothing
+//@ func (*LexRegDef).Id
+//@   prop C14
+//@   requires [this] this != nil
+//@   ensures [fun] result == lexId(iface(this))
+//@   assigns nothing
+//@ func (*LexIgnoredTokDef).Id
+//@   prop C14
+//@   requires [this] this != nil
+//@   ensures [fun] result == lexId(iface(this))
+//@   assigns nothing
+//@
+//@ # Add panics exactly when one of the new productions has an id that is already in the map or occurs earlier in the
+//@ # same call; otherwise every new id is recorded and nothing recorded before is touched
+//@ func (*LexProdMap).Add
+//@   prop C14
+//@   requires [this] this != nil && this.idMap != nil && this.idxMap != nil && all(k, 0, len(prods), isLexProd(prods[k]))
+//@   panics [duplicate] some(j, 0, len(prods), has(this.idMap, lexId(prods[j])) || some(k, 0, j, lexId(prods[k]) == lexId(prods[j])))
+//@   ensures [added] all(j, 0, len(prods), has(this.idMap, lexId(prods[j])))
+//@   ensures [kept] forallS(s, imp(old(has(this.idMap, s)), has(this.idMap, s) && this.idMap[s] == old(this.idMap[s])))
+//@   ensures [only] forallS(s, imp(has(this.idMap, s), old(has(this.idMap, s)) || some(j, 0, len(prods), lexId(prods[j]) == s)))
+//@   assigns mapof(this.idMap), mapof(this.idxMap)
+//@   loop 1
+//@     invariant [maps] this.idMap == old(this.idMap) && this.idxMap == old(this.idxMap)
+//@     invariant [added] all(j, 0, range_i1, has(this.idMap, lexId(prods[j])))
+//@     invariant [kept] forallS(s, imp(old(has(this.idMap, s)), has(this.idMap, s) && this.idMap[s] == old(this.idMap[s])))
+//@     invariant [only] forallS(s, imp(has(this.idMap, s), old(has(this.idMap, s)) || some(j, 0, range_i1, lexId(prods[j]) == s)))
+//@     invariant [nodup] all(j, 0, range_i1, !old(has(this.idMap, lexId(prods[j]))) && all(k, 0, j, lexId(prods[k]) != lexId(prods[j])))
+//@
+//@ func (*LexProdMap).Index
+//@   prop C14
+//@   requires [this] this != nil
+//@   ensures [value] result == ite(has(this.idMap, id), this.idMap[id], -1)
+//@   assigns nothing
